@@ -7,6 +7,7 @@ From AV Require Import Model.D03.
 From AV Require Import Model.D08.
 From AV Require Import Model.D13.
 From AV Require Import Model.D20.
+From AV Require Import Model.D05.
 Import ListNotations.
 
 Definition dispatch (prop op : nat) (t : itree) : itree :=
@@ -21,5 +22,6 @@ Definition dispatch (prop op : nat) (t : itree) : itree :=
   | 8 => d08 op t
   | 13 => d13 op t
   | 20 => d20 op t
+  | 5 => d05 op t
   | _ => bad_input
   end.
